@@ -803,6 +803,19 @@ class Processor:
 
             # Ensure the reference exists before attempting to delete it
             if isinstance(parent, (CommentedMap, dict)):
+                own_keys = (
+                    [key for key, _ in parent.non_merged_items()]
+                    if hasattr(parent, "non_merged_items") else list(parent))
+                if parentref in own_keys and parent[parentref] is node:
+                    # An ordinary key of this very Hash (whatever its name)
+                    try:
+                        del parent[parentref]
+                    except KeyError:
+                        # Inherited through a merge key and already gone with
+                        # the node it was inherited from
+                        pass
+                    continue
+
                 all_data = ancestry[0][0] if len(ancestry) > 0 else parent
                 all_anchors: Dict[str, Any] = {}
                 Anchors.scan_for_anchors(all_data, all_anchors)
@@ -819,20 +832,14 @@ class Processor:
                     and hasattr(parent, "merge")
                     and len(parent.merge) > 0
                 ):
-                    merge_removed = False
-                    for (midx, merge_node) in parent.merge:
+                    for merge_pos, (_, merge_node) in enumerate(parent.merge):
                         if merge_node == compare_node:
                             for (key, val) in merge_node.items():
                                 if key in parent and parent[key] == val:
                                     del parent[key]
-                            del parent.merge[midx]
-                            merge_removed = True
+                            del parent.merge[merge_pos]
                             break
-                    if not merge_removed and parentref in parent:
-                        # Not a merge reference after all:  an ordinary key
-                        # which happens to bear the name of its own anchor
-                        del parent[parentref]
-                elif parentref in parent:
+                elif parentref in own_keys:
                     del parent[parentref]
             elif isinstance(parent, (CommentedSeq, list)):
                 # An equal-bounds slice, [N:N], wraps its one element in a list
